@@ -177,6 +177,29 @@ def foreign_subtree(rng, max_nodes=8):
     return n
 
 
+# ------------------------------------------------------------------ fresh string objects
+def fr(s):
+    """A NEW str object equal to s (None stays None): the harness never hands the library a string object it
+    could share with the library's own constants, so `is`-for-`==` slips become observable."""
+    if s is None:
+        return None
+    return "".join([c for c in s]) if len(s) != 1 else (s + "\x00")[:1]
+
+
+def fresh_tree(t):
+    return [fr(t[0]), fr(t[1]), [[fr(k), fr(v)] for k, v in t[2]], [fresh_tree(k) for k in t[3]]]
+
+
+def build_tree(t):
+    from harness import rulelib as RL
+    return RL.build_tree(fresh_tree(t))
+
+
+def build_node(name, content, attrs, kids):
+    from harness import rulelib as RL
+    return RL.build_node(fr(name), fr(content), [(fr(k), fr(v)) for k, v in attrs], [fr(k) for k in kids])
+
+
 # ------------------------------------------------------------------ history sensitivity
 # The Coq models are pure functions of (tables, tree); "validation is stateless" is an assumption of
 # every theorem.  These helpers validate the SAME node objects repeatedly — twice in collecting mode,
@@ -228,7 +251,7 @@ def fresh_result(t, call):
     """(ff, collected) of validate.<call> on a freshly built tree."""
     from harness import rulelib as RL
     from metapype.eml import validate
-    root = RL.build_tree(t)
+    root = build_tree(t)
     fn = getattr(validate, call)
     paths = node_paths(root)
     return run_ff(lambda e: fn(root, e)), run_collect(lambda e: fn(root, e), paths)
@@ -340,12 +363,14 @@ def history_problems(rng, t, call="tree", pool=CONTENT_POOL, n_edits=2):
 
     def compare(step, got, want, kind):
         steps.append(step)
-        if got != want:
-            problems.append((step, f"validate.{call} on the same objects ({' -> '.join(steps)}) gave a different {kind} than on a freshly built identical tree",
+        if got != want or any(isinstance(e, list) and e and isinstance(e[0], str) and e[0].startswith("RAISED:") for e in got):
+            raised = got != want or None
+            problems.append((step, (f"validate.{call} on the same objects ({' -> '.join(steps)}) gave a different {kind} than on a freshly built identical tree"
+                                    if got != want else f"validate.{call} raised in collecting mode ({' -> '.join(steps)}): {got[-1]}"),
                              {"kind": "impl-vs-statement", "call": "validate." + call, "tree": copy.deepcopy(t), "history": list(steps),
                               "observed": got, "expected_from_fresh_tree": want}))
     want_ff, want_col = fresh_result(t, call)
-    root = RL.build_tree(t)
+    root = build_tree(t)
     paths = node_paths(root)
     compare("collect", run_collect(lambda e: fn(root, e), paths), want_col, "error list")
     compare("collect-again", run_collect(lambda e: fn(root, e), paths), want_col, "error list")
@@ -370,3 +395,131 @@ def history_problems(rng, t, call="tree", pool=CONTENT_POOL, n_edits=2):
             compare(label + "/collect-again", run_collect(lambda e: fn(root, e), paths), want_col, "error list")
     Node.store.clear()
     return problems
+
+
+# ------------------------------------------------------------------ two independent problems in document order
+def _spec_names(spec):
+    if not spec:
+        return []
+    if isinstance(spec[0], str):
+        return [spec[0]]
+    if isinstance(spec[-1], list):
+        return [n for i in spec for n in _spec_names(i)]
+    return [n for i in spec[:-2] for n in _spec_names(i)]
+
+
+def _leaf(name):
+    return [name, None, [], []]
+
+
+def problem_fragments(rng, all_names=False):
+    """Small subtrees that each carry ONE kind of problem, derived from the live rule table:
+    A = single nodes (every content error kind via the C02 classifier, attribute kinds, unknown element,
+        metadata with two children, incl. the kinds whose collected record is a 3-tuple);
+    B = parents with a children problem (missing, duplicated, reversed = allowed-but-misplaced,
+        a-b-a = allowed-but-misplaced after a valid prefix, foreign child)."""
+    from harness import rulelib as RL
+    from harness import c02 as C02
+    from metapype.eml import rule as R
+    rules = RL.live_rules()
+    by_rule = {}
+    for name, rname in R.node_mappings.items():
+        if rname in rules:
+            by_rule.setdefault(name if all_names else rname, name)
+    A, B = [], []
+    A.append(("unknown-element", ["zzUnknownElement", "x", [], []]))
+    A.append(("unknown-element-empty-name", ["", None, [], []]))
+    A.append(("metadata-two-children", ["metadata", None, [], [_leaf("a"), _leaf("b")]]))
+    A.append(("valid-title", ["title", "A valid title of sufficient length", [], []]))
+    for name in by_rule.values():
+        rname = R.node_mappings[name]
+        rj = rules[rname]
+        attrs, kids = C02.skeleton(rj)
+        attrs = [list(a) for a in attrs]
+        crs = rj[2].get("content_rules", [])
+        enum = rj[2].get("content_enum") if "content_enum" in rj[2] else None
+        mixed = rname in (R.RULE_TEXT, R.RULE_ANYNAME, R.RULE_PARA, R.RULE_SUBSCRIPT, R.RULE_SUPERSCRIPT)
+        ok = RL.canonical_content(rj)
+        kid_nodes = [_leaf(k) for k in kids]
+        # content problems: up to 3 rejected contents of different classes
+        if crs != ["emptyContent"] or enum is not None:
+            seen = set()
+            pool = [None, ""] + C02.pool_for(_Ctx(rng), crs, enum, 0)
+            rng.shuffle(pool)
+            for c in [None, ""] + pool:
+                v, cls = C02.expected(crs, enum, mixed, c, len(kids))
+                if v == C02.REJECT and cls not in seen and len(seen) < 3:
+                    seen.add(cls)
+                    A.append((f"content:{rname}:{cls}", [name, c, copy.deepcopy(attrs), copy.deepcopy(kid_nodes)]))
+        else:
+            A.append((f"content:{rname}:not-empty", [name, rng.choice(["x", "", " "]), copy.deepcopy(attrs), copy.deepcopy(kid_nodes)]))
+        # attribute problems
+        if any(sp[0] is True for sp in rj[0].values()):
+            A.append((f"attr-required:{rname}", [name, ok, [], copy.deepcopy(kid_nodes)]))
+        for k, sp in rj[0].items():
+            if len(sp) > 1:
+                A.append((f"attr-enum:{rname}", [name, ok, copy.deepcopy([a for a in attrs if a[0] != k]) + [[k, rng.choice(["zz-unlisted", ""])]], copy.deepcopy(kid_nodes)]))
+                break
+        if rng.random() < 0.3:
+            A.append((f"attr-unrecognized:{rname}", [name, ok, copy.deepcopy(attrs) + [["zzAttr", rng.choice(["1", ""])]], copy.deepcopy(kid_nodes)]))
+        # children problems
+        allowed = _spec_names(rj[1])
+        if allowed:
+            def mk(label, names):
+                B.append((f"children:{label}:{rname}", [name, ok, copy.deepcopy(attrs), [_leaf(k) for k in names]]))
+            if kids:
+                mk("missing-first", kids[1:])
+                mk("reversed", list(reversed(kids)))
+            mk("duplicated-last", kids + [(kids or allowed)[-1]] * 2)
+            mk("a-b-a", [allowed[0], allowed[-1], allowed[0]])
+            if len(allowed) >= 3:
+                a, b = rng.sample(allowed, 2)
+                mk("x-y-x", [a, b, a])
+            mk("foreign-child", kids + ["zzForeignChild"])
+            mk("valid-then-misplaced", kids + [allowed[0]])
+    return A, B
+
+
+class _Ctx:
+    def __init__(self, rng):
+        self.rng = rng
+
+
+def problem_pairs(rng, thorough=False):
+    """Trees with TWO independent problems in document order under one root: every single-node kind (A) first and
+    a children problem (B) second, B then A, and sampled A-A / B-B pairs. Roots: an unknown element (its own record
+    comes first) and a known container so that the first fragment's record is the latest one when the second
+    fragment is reached."""
+    A, B = problem_fragments(rng, all_names=thorough)
+    three = [a for a in A if a[0].startswith(("unknown-element", "metadata-two", "valid-title")) or "malformed" in a[0] and "nonEmpty" in a[0]]
+    nonempty = [a for a in A if a[1][1] in (None, "") and a[0].startswith("content:")]
+    firsts_always = three + nonempty[:6]
+    out = []
+
+    def emit(f1, f2, root):
+        out.append((f1[0] + " THEN " + f2[0], [root, None, [], [copy.deepcopy(f1[1]), copy.deepcopy(f2[1])]]))
+    for b in B:
+        for a in firsts_always:
+            emit(a, b, "zzRoot")
+        for a in rng.sample(A, 3 if not thorough else 8):
+            emit(a, b, rng.choice(["zzRoot", "dataset", "eml"]))
+            emit(b, a, "zzRoot")
+        b2 = rng.choice(B)
+        emit(b, b2, "zzRoot")
+    for a in A:
+        for a2 in rng.sample(A, 4 if not thorough else 12):
+            emit(a, a2, rng.choice(["zzRoot", "dataset"]))
+    return out
+
+
+def wide_trees(rng):
+    """A few nodes with more than 256 children / attributes (sizes past CPython's small-int cache)."""
+    out = []
+    for n in (257, 300):
+        out.append(("wide:keywordSet", ["keywordSet", None, [], [["keyword", "k%d" % i, [], []] for i in range(n)]]))
+        out.append(("wide:section-paras", ["section", None, [], [["para", "p%d" % i, [], []] for i in range(n)]]))
+        out.append(("wide:metadata", ["metadata", None, [], [["x%d" % i, None, [], []] for i in range(n)]]))
+        out.append(("wide:attributes", ["title", "A title", [["a%d" % i, str(i)] for i in range(n)], []]))
+        out.append(("wide:max-exceeded", ["dataset", None, [], [["title", "t", [], []]] + [["pubDate", "2021", [], []] for _ in range(n)]]))
+        out.append(("wide:foreign-children", ["creator", None, [], [["zz%d" % (i % 7), None, [], []] for i in range(n)]]))
+    return out
